@@ -59,6 +59,7 @@ def run_config(cfg, res):
   r = gen.rng(cfg['seed'], 'C19', cfg['name'])
   cache = cc.MetricCache()
   maxperm = 3 if cfg['tier'] == 'quick' else 4
+  mt_last = [1600000000]
 
   def one(stext, atext):
     with open(spath, 'w') as f:
@@ -69,6 +70,14 @@ def run_config(cfg, res):
     else:
       with open(apath, 'w') as f:
         f.write(atext)
+    # configuration management restores files with arbitrary mtimes (rollback with cp -p, rsync -t, same tick):
+    # what counts is the content at reload time
+    for pth in (spath, apath):
+      if os.path.exists(pth) and r.random() < 0.6:
+        t = r.choice([1000000000, 1500000000, mt_last[0], mt_last[0] - 3600, mt_last[0] + 5, 1])
+        os.utime(pth, (t, t))
+        mt_last[0] = t
+        res.count('files_with_non_increasing_mtime')
     writer.reloadStorageSchemas()
     writer.reloadAggregationSchemas()
     rs = refs.load_schemas(stext)
@@ -99,7 +108,7 @@ def run_config(cfg, res):
         res.violation('aggregation', 'metric %r created with (xff, method)=%r, aggregation file says %r\n%s' % (nm, (xff, meth), exp_agg, atext), wit)
     res.sample(dict(schemas=stext, aggregation=atext), cap=2)
 
-  for case in range(10 if cfg['tier'] == 'quick' else 30):
+  for case in range(40 if cfg['tier'] == 'quick' else 600):
     ssecs = gen_sections(r, 'schema')
     asecs = gen_sections(r, 'agg') if r.random() < 0.85 else None
     orders = [ssecs]
